@@ -277,12 +277,22 @@ def box_case(rng, w, h, style, ox, oy, with_dash=None):
                 if not lab:
                     continue
             pad = rng.randint(1, w - len(lab) - 1)
+            if name != 'biground' and rng.random() < 0.3:
+                # the label touches a side (also a dashed stretch of it)
+                pad = rng.choice([0, w - len(lab)])
             interior[y] = ' ' * pad + lab
             col = ox + 1 + pad + (1 if name == 'biground' else 0)
             for word in lab.split(' '):
                 texts.append((col, oy + 1 + y, word))
                 col += len(word) + 1
     rows = make_box(w, h, style, hz, vt, dash_rows, interior, ox, oy)
+    if h >= 1 and ox >= 4 and name != 'biground' and rng.random() < 0.1:
+        # a word outside the box that touches its left side
+        word = rng.choice(['ab', 'opt', 'k9'])
+        y = rng.randrange(h)
+        r = rows[oy + 1 + y]
+        rows[oy + 1 + y] = r[:ox - len(word)] + word + r[ox:]
+        texts.append((ox - len(word), oy + 1 + y, word))
     dashed = (hz in DASHED and w > 0) or (vt in DASHED and h > 0) or bool(dash_rows)
     want = expected_rect(w, h, rounded, dashed, ox, oy, big=(name == 'biground'))
     return {'kind': 'box', 'rows': rows, 'style': name, 'want': [want[0], list(want[1])] + [str(x) for x in want[2:]], 'texts': texts}
